@@ -62,7 +62,12 @@ type World struct {
 }
 
 func init() {
-	log.Root().SetHandler(log.DiscardHandler())
+	if os.Getenv("VERIF_NODE_LOG") != "" {
+		// diagnosis: the node's own log (warnings and errors) on stderr
+		log.Root().SetHandler(log.LvlFilterHandler(log.LvlWarn, log.StreamHandler(os.Stderr, log.TerminalFormat(false))))
+	} else {
+		log.Root().SetHandler(log.DiscardHandler())
+	}
 }
 
 // DetKey derives a deterministic secp256k1 key from (seed, i).
